@@ -701,7 +701,13 @@ func c11Stress(c *Ctx) {
 	if c.Thorough() {
 		n = 4000
 	}
+	hangs := 0
 	for it := 0; it < n; it++ {
+		if hangs >= 2 {
+			// two receives already hung for a minute each (reported): more of them add nothing
+			c.Note("stress: stopped after two hung traces")
+			break
+		}
 		ncid := 1 + r.IntN(5)
 		var msgs, recvs []c11Event
 		for i := 0; i < ncid; i++ {
@@ -764,6 +770,7 @@ func c11Stress(c *Ctx) {
 		root.Close()
 		res := strings.Join(results, ";")
 		if hung {
+			hangs++
 			c.Violation("receive did not return within 60s although all its messages were delivered: " + lhs + " => " + res)
 		}
 		c.Count("stress")
